@@ -129,7 +129,9 @@ def run(ctx, ck) -> None:
         for n in ast.walk(fn):
             if isinstance(n, ast.Attribute) and n.attr == 'size' and ast.unparse(n.value) in ('band_values', 'self.band_values'):
                 ck.bad('Z5', n, f'{fn.name} uses band_values.size: with batched band values this counts every row, not the bands of one row', instance=f'{fn.name} .size')
-    sigs = [n.value.replace(' ', '') for n in ast.walk(mv) if isinstance(n, ast.Constant) and isinstance(n.value, str) and '->' in n.value]
+    from ..loader import string_constants
+
+    sigs = [v.replace(' ', '') for v in string_constants(mv) if '->' in v]
     ck.expect('Z3', sigs == ['(n),(k)->(n)'], mv, 'mv vectorises the kernel with signature (n),(k)->(n): independently per batch row, output length = input length',
               f'mv vectorises with signature {sigs}', instance='vectorize signature')
     mvt = [term(n) for n in ast.walk(mv) if isinstance(n, ast.Call)]
